@@ -569,6 +569,9 @@ func run(sc *Scenario, diag bool) (res Result) {
 			shifted := make([]int, len(in))
 			for j, x := range in {
 				shifted[j] = x + 500
+				if sc.Stage == "fork.fold" {
+					shifted[j] = x // the carrier encodings of C10 are not closed under a shift; cross-talk shows in the folded value
+				}
 				if sc.Stage == "join" {
 					shifted[j] = i*1000 + 500 + j
 				}
